@@ -231,6 +231,215 @@ impl C07 {
     }
 }
 
+/// A reader takes the generic IPv6 extension header in two steps (next header + length octet, then the
+/// rest) and reports the step that ran dry: "2 bytes required" is a truthful lower bound when fewer
+/// than 2 are left (appendix A: a decoder may report the fixed minimum it needs before it knows the
+/// full header length). Mapped onto the reference's requirement so that everything else is compared.
+fn staged_reader_minimum(rep: &mut Report, r: &RDecoded, e: NErr) -> NErr {
+    if let NErr::Len { required: 2, len, src, layer: Lay::Ipv6ExtHeader, off } = e {
+        if len < 2 {
+            if let Some(f) = &r.fault {
+                for a in &f.admissible {
+                    if let Admissible::Len { required, len: l, off: o, .. } = a {
+                        if *l == len && *o == off && *required >= 2 {
+                            rep.count("readers.staged_minimum");
+                            return NErr::Len { required: *required, len, src, layer: Lay::Ipv6ExtHeader, off };
+                        }
+                    }
+                }
+            }
+        }
+    }
+    e
+}
+
+/// reader entry points: length errors of `IpHeaders::read` and of the `read_limited` walkers over a
+/// `LimitedReader` positioned at a caller-chosen base offset.
+impl C07 {
+    fn readers(&mut self, rep: &mut Report, rng: &mut Prng) {
+        use etherparse::io::LimitedReader;
+        use etherparse::*;
+        use std::io::Cursor;
+        let io = |e: &std::io::Error| NErr::Io(format!("{:?}", e.kind()));
+        // (a) IpHeaders::read over an IP packet whose announced length is present in the data
+        {
+            let mut o = GenOpts::hostile();
+            o.start = StartSel::Ip;
+            o.trailing = 8;
+            let mut bytes = gen::gen_case(rng, &o).bytes;
+            let announced = match bytes.first().map(|b| b >> 4) {
+                Some(4) if bytes.len() >= 4 => Some(u16::from_be_bytes([bytes[2], bytes[3]]) as usize),
+                Some(6) if bytes.len() >= 6 => {
+                    let p = u16::from_be_bytes([bytes[4], bytes[5]]) as usize;
+                    if p == 0 {
+                        // a reader has no slice length to fall back to (the slicers do): not comparable
+                        rep.count("readers.skipped_ipv6_payload_len_zero");
+                        None
+                    } else {
+                        Some(40 + p)
+                    }
+                }
+                _ => Some(0),
+            };
+            if let Some(a) = announced {
+                if bytes.len() < a {
+                    // the data source delivers what the header announces
+                    let pad = rng.bytes(a - bytes.len());
+                    bytes.extend_from_slice(&pad);
+                }
+                rep.evals += 1;
+                rep.count("entry.IpHeaders::read");
+                let res = shell::guarded(|| {
+                    let mut cur = Cursor::new(&bytes[..]);
+                    IpHeaders::read(&mut cur).map(|_| ()).map_err(|e| match &e {
+                        err::ip::HeaderReadError::Io(e) => io(e),
+                        err::ip::HeaderReadError::Len(l) => crate::observe::nlen(l),
+                        err::ip::HeaderReadError::Content(c) => crate::observe::n_ip_headers_error(c),
+                    })
+                });
+                match res {
+                    Ok(Ok(())) => rep.count("no_error"),
+                    Ok(Err(e)) => {
+                        let mut r = rdecode(&bytes, Start::Ip, Mode::Strict, ExtMode::Struct);
+                        if let Some(f) = &r.fault {
+                            if matches!(f.kind, Kind::Udp | Kind::Tcp | Kind::Icmp4 | Kind::Icmp6) {
+                                r.fault = None;
+                            }
+                        }
+                        match &e {
+                            NErr::Io(k) => {
+                                // data ends inside a header: the slice decoders see a length fault there
+                                if r.fault.is_none() {
+                                    rep.violation(
+                                        &format!("error_without_fault|IpHeaders::read|Io:{}", k),
+                                        format!("IpHeaders::read: reports Io({}) but the reference decoder finds no fault", k),
+                                        &bytes,
+                                    );
+                                } else {
+                                    rep.count("readers.io_error_with_fault");
+                                }
+                            }
+                            _ => {
+                                let e = staged_reader_minimum(rep, &r, e.clone());
+                                judge_error(rep, "IpHeaders::read", &bytes, &r, &e, None);
+                                rep.sig(&format!("IpHeaders::read|{}|{:?}", e.class(), r.fault.as_ref().map(|f| (f.kind, f.off))));
+                            }
+                        }
+                    }
+                    Err(p) => note_abnormal(rep, "IpHeaders::read", &p),
+                }
+            }
+        }
+        // (b) Ipv6Extensions::read_limited behind a caller-chosen base offset
+        {
+            let full = gen::gen_ipv6(rng, gen::Lie::Any).bytes;
+            if full.len() >= 40 {
+                let first = full[6];
+                let mut bytes = full[40..].to_vec();
+                if rng.chance(1, 2) && !bytes.is_empty() {
+                    bytes.truncate(rng.usize_below(bytes.len() + 1));
+                }
+                let base = if rng.bool() { 0 } else { rng.range(1, 200) as usize };
+                rep.evals += 1;
+                rep.count("entry.Ipv6Extensions::read_limited");
+                let res = shell::guarded(|| {
+                    let cur = Cursor::new(&bytes[..]);
+                    let mut lr = LimitedReader::new(cur, bytes.len(), LenSource::Slice, base, err::Layer::Ipv6ExtHeader);
+                    Ipv6Extensions::read_limited(&mut lr, IpNumber(first)).map(|_| ()).map_err(|e| match &e {
+                        err::ipv6_exts::HeaderLimitedReadError::Io(e) => io(e),
+                        err::ipv6_exts::HeaderLimitedReadError::Len(l) => crate::observe::nlen(l),
+                        err::ipv6_exts::HeaderLimitedReadError::Content(c) => crate::observe::c_ipv6_exts(c),
+                    })
+                });
+                self.judge_limited(rep, "Ipv6Extensions::read_limited", &bytes, first, base, res);
+            }
+        }
+        // (c) Ipv4Extensions::read_limited / IpAuthHeader::read_limited
+        {
+            let nx = if rng.chance(1, 4) { 51 } else { 6 };
+            let (mut bytes, _) = gen::ah_bytes(rng, nx, gen::Lie::Any);
+            let t = rng.range(0, 9) as usize;
+            let extra = rng.bytes(t);
+            bytes.extend_from_slice(&extra);
+            if rng.chance(1, 2) && !bytes.is_empty() {
+                bytes.truncate(rng.usize_below(bytes.len() + 1));
+            }
+            let base = if rng.bool() { 0 } else { rng.range(1, 200) as usize };
+            rep.evals += 1;
+            rep.count("entry.Ipv4Extensions::read_limited");
+            let res = shell::guarded(|| {
+                let cur = Cursor::new(&bytes[..]);
+                let mut lr = LimitedReader::new(cur, bytes.len(), LenSource::Slice, base, err::Layer::IpAuthHeader);
+                Ipv4Extensions::read_limited(&mut lr, IpNumber(51)).map(|_| ()).map_err(|e| match &e {
+                    err::ip_auth::HeaderLimitedReadError::Io(e) => io(e),
+                    err::ip_auth::HeaderLimitedReadError::Len(l) => crate::observe::nlen(l),
+                    err::ip_auth::HeaderLimitedReadError::Content(c) => crate::observe::c_auth_v4(c),
+                })
+            });
+            // an IPv4 chain holds at most one authentication header: the reference walk of the
+            // IPv6 chain is cut behind the first one
+            self.judge_limited_v4(rep, "Ipv4Extensions::read_limited", &bytes, base, res);
+        }
+    }
+
+    fn judge_limited(&mut self, rep: &mut Report, name: &str, bytes: &[u8], first: u8, base: usize, res: Result<Result<(), NErr>, shell::Panicked>) {
+        match res {
+            Ok(Ok(())) => rep.count("no_error"),
+            Ok(Err(e)) => {
+                let r = rdecode(bytes, Start::Ext(first), Mode::Strict, ExtMode::Struct);
+                self.judge_based(rep, name, bytes, base, &r, e);
+            }
+            Err(p) => note_abnormal(rep, name, &p),
+        }
+    }
+
+    fn judge_limited_v4(&mut self, rep: &mut Report, name: &str, bytes: &[u8], base: usize, res: Result<Result<(), NErr>, shell::Panicked>) {
+        match res {
+            Ok(Ok(())) => rep.count("no_error"),
+            Ok(Err(e)) => {
+                let mut r = rdecode(bytes, Start::Ext(51), Mode::Strict, ExtMode::Struct);
+                if let Some(f) = &r.fault {
+                    if f.off > 0 {
+                        r.fault = None;
+                    }
+                }
+                self.judge_based(rep, name, bytes, base, &r, e);
+            }
+            Err(p) => note_abnormal(rep, name, &p),
+        }
+    }
+
+    /// the reported offset counts from the base the caller handed to the LimitedReader
+    fn judge_based(&mut self, rep: &mut Report, name: &str, bytes: &[u8], base: usize, r: &RDecoded, e: NErr) {
+        let e = match e {
+            NErr::Len { required, len, src, layer, off } => {
+                if off < base {
+                    rep.violation(
+                        &format!("untruthful|{}|offset_below_base", name),
+                        format!("{}: layer_start_offset {} is below the base offset {} the reader was created with", name, off, base),
+                        bytes,
+                    );
+                    return;
+                }
+                NErr::Len { required, len, src, layer, off: off - base }
+            }
+            NErr::Io(k) => {
+                // the limit is the data length here: running out of data is reported as a length error
+                rep.violation(
+                    &format!("untruthful|{}|io_instead_of_len|{}", name, k),
+                    format!("{}: Io({}) although the LimitedReader limit equals the data length", name, k),
+                    bytes,
+                );
+                return;
+            }
+            x => x,
+        };
+        let e = staged_reader_minimum(rep, r, e);
+        judge_error(rep, name, bytes, r, &e, None);
+        rep.sig(&format!("{}|{}|{:?}|base{}", name, e.class(), r.fault.as_ref().map(|f| (f.kind, f.off)), (base > 0) as u8));
+    }
+}
+
 impl Monitor for C07 {
     fn engines(&self, tier: Tier) -> Vec<(&'static str, u64)> {
         vec![
@@ -238,6 +447,7 @@ impl Monitor for C07 {
             ("sweep", tier.pick(50000, 5000000)),
             ("iplevel", tier.pick(1500000, 150000000)),
             ("corpus", tier.pick(400_000, 8_000_000)),
+            ("readers", tier.pick(1500000, 150000000)),
         ]
     }
 
@@ -284,6 +494,7 @@ impl Monitor for C07 {
                     self.whole(rep, &c);
                 }
             }
+            "readers" => self.readers(rep, rng),
             "iplevel" => {
                 let mut o = GenOpts::hostile();
                 o.start = StartSel::Ip;
